@@ -16,12 +16,16 @@ RUN_HISTORY = ["wire_gain", "wire_baseline", "wire_delay", "pad_baseline", "pad_
 
 PROPS = {
     "C06": dict(
-        lean_modules=["AlphaG.Props.C06"],
+        lean_modules=["AlphaG.Props.C06", "AlphaG.Props.C06Converse"],
         required_theorems=["AlphaG.Trg.trg_accept_iff", "AlphaG.Trg.trg_fields", "AlphaG.Trg.trg_ordering",
-                           "AlphaG.Trg.trg_roundtrip", "AlphaG.Trg.trg_total", "AlphaG.Trg.trg_len"],
+                           "AlphaG.Trg.trg_roundtrip", "AlphaG.Trg.trg_total", "AlphaG.Trg.trg_len",
+                           "AlphaG.Trg.trg_encode_decode", "AlphaG.Trg.trg_decode_injective",
+                           "AlphaG.Trg.trg_decoded_wf"],
         harness=[("c06", ["dev"])],
         level_text="Lean theorems over all byte strings: accept iff documented layout (trg_accept_iff), every accessor "
-                   "equals its little-endian field (trg_fields), counter ordering, exact 80-byte round trip, totality; the "
+                   "equals its little-endian field (trg_fields), counter ordering, exact 80-byte round trip, totality, and the "
+                   "converse round trip decode (encode p) = ok p for every in-width ordered field tuple "
+                   "(trg_encode_decode; accepted slices and well-formed packets are in bijection); the "
                    "model is tied to the Rust decoder by a differential run on every check.",
         level_note="Trusted: Lean kernel + {propext, Classical.choice, Quot.sound}; the hand-written model of "
                    "TrgV3Packet::try_from is validated against the real decoder by sampling (boundary words, all 640 bit "
